@@ -60,6 +60,7 @@ extern "C" {
     fn Tok_ignore(this: &Tok, f: DiplomatCallback<u32>) -> u32;
     fn Tok_try_call(this: &Tok, ok: bool, f: DiplomatCallback<u32>) -> DiplomatResult<u32, Box<ErrTok>>;
     fn Tok_greet(this: &Tok, s: diplomat_runtime::DiplomatUtf8StrSlice, f: DiplomatCallback<u32>) -> u32;
+    fn Tok_greet_after(this: &Tok, f: DiplomatCallback<u32>, s: diplomat_runtime::DiplomatUtf8StrSlice) -> u32;
     fn Tok_hold(this: &mut Tok, f: DiplomatCallback<u32>);
     fn Tok_call_held(this: &Tok, x: u32) -> u32;
     fn Tok_unhold(this: &mut Tok);
@@ -802,7 +803,13 @@ impl<'t> Exec<'t> {
                 let text = "é".repeat(*n);
                 let (cb, data, cbid) = make_cb(*dtor);
                 self.next += 1;
-                let got = unsafe { Tok_greet(t, text.as_str().into(), cb) };
+                let got = unsafe {
+                    if *n % 2 == 0 {
+                        Tok_greet(t, text.as_str().into(), cb)
+                    } else {
+                        Tok_greet_after(t, cb, text.as_str().into())
+                    }
+                };
                 if got != (2 * *n as u32).wrapping_add(cbid) {
                     return Err(self.v("O5-value-integrity", "greet result wrong".into()));
                 }
